@@ -1,5 +1,7 @@
 import Proofs.UtilSig
 import Proofs.UtilTie
+import Proofs.UtilTieFn
+import Proofs.DerSpec
 /-!
 # C12 — signature encodings are bijective, fixed-size and strictly decoded
 
@@ -285,5 +287,63 @@ example : sigdecodeDer [0x30, 0x07, 0x02, 0x01, 0x01, 0x02, 0x01, 0x02, 0x00] 5 
     ∧ sigdecodeDer [0x30, 0x03, 0x02, 0x01, 0x01] 5 = .error .unexpectedDER
     ∧ sigdecodeDer [] 5 = .error .unexpectedDER :=
   ⟨by decide, by decide, by decide, by decide, by decide, by decide, by decide⟩
+
+/-! ## additions after the independent review -/
+
+/-- the property's wording: the raw half-length is `⌈bitlen(n) / 8⌉` -/
+theorem orderlen_eq_bitLength (n : Nat) (hn : 1 ≤ n) : orderlen n = (bitLength n + 7) / 8 :=
+  Util.orderlen_eq_bitLength n hn
+
+example : orderlen 256 = (bitLength 256 + 7) / 8 ∧ bitLength 256 = 9 := by decide +kernel
+
+/-- which exception `number_to_string` raises for a number that does not fit into `l` bytes -/
+theorem number_to_string_error_kind (num order : Nat) (h : 256 ^ orderlen order ≤ num) :
+    numberToString num order = if hexLen num % 2 = 1 then .error .binasciiError else .error .assertionError :=
+  Util.numberToString_error_kind num order h
+
+/-- DER strictness, class 1: any byte after the SEQUENCE -/
+theorem sigdecode_der_rejects_trailing (n r s : Nat) (junk : Bytes) (hd : DerSigDomain r s) (hj : junk ≠ []) :
+    ∃ e, sigencodeDer r s n = .ok e ∧ sigdecodeDer (e ++ junk) n = .error .unexpectedDER :=
+  ⟨_, sigencodeDer_eq r s n hd.1 hd.2.1 hd.2.2, sigdecodeDer_trailing r s n junk hd.2.2 hj⟩
+
+/-- DER strictness, class 2: any byte after `s` INSIDE the SEQUENCE (outer length repaired) — a third INTEGER included -/
+theorem sigdecode_der_rejects_inner_junk (n r s : Nat) (junk : Bytes) (hd : DerSigDomain r s)
+    (hl : (encodeInteger r ++ encodeInteger s ++ junk).length < 256 ^ 127) (hj : junk ≠ []) :
+    ∃ a b e, encodeIntegerPy (r : Int) = .ok a ∧ encodeIntegerPy (s : Int) = .ok b ∧ encodeSequencePy [a, b, junk] = .ok e
+      ∧ sigdecodeDer e n = .error .unexpectedDER :=
+  ⟨_, _, _, encodeIntegerPy_eq r hd.1, encodeIntegerPy_eq s hd.2.1,
+    encodeSequencePy_eq _ (by simpa [List.append_assoc] using hl), sigdecodeDer_inner_junk r s n junk hd.1 hd.2.1 hl hj⟩
+
+/-- DER strictness, class 3: a SEQUENCE holding a single INTEGER -/
+theorem sigdecode_der_rejects_single (n r : Nat) (hr : r < 256 ^ 126) :
+    ∃ a e, encodeIntegerPy (r : Int) = .ok a ∧ encodeSequencePy [a] = .ok e
+      ∧ sigdecodeDer e n = .error .unexpectedDER := by
+  have h1 : (intBody r).length < 256 ^ 127 :=
+    Nat.lt_of_le_of_lt (intBody_length_le r 126 (by decide) hr) (by decide)
+  have h2 : (encodeInteger r).length < 256 ^ 127 := Nat.lt_of_le_of_lt (encodeInteger_length_le r hr) (by decide)
+  exact ⟨_, _, encodeIntegerPy_eq r h1, encodeSequencePy_eq _ (by simpa using h2), sigdecodeDer_single r n h1 h2⟩
+
+/-- DER strictness against the independent specification (X.690, `Proofs/DerSpec.lean`): `sigdecode_der` accepts `sig`
+with `(r, s)` exactly when `sig` is a DER SEQUENCE, with nothing after it, whose contents are the DER INTEGER `r` followed
+by the DER INTEGER `s` and nothing else -/
+theorem sigdecode_der_spec (sig : Bytes) (n r s : Nat) :
+    sigdecodeDer sig n = .ok (r, s) ↔
+      ∃ body rest, X690.IsDerSequence sig body [] ∧ X690.IsDerInteger body r rest ∧ X690.IsDerInteger rest s [] := by
+  constructor
+  · intro h
+    obtain ⟨hs, h1, h2, h3⟩ := sigdecodeDer_ok h
+    refine ⟨encodeInteger r ++ encodeInteger s, encodeInteger s, ?_, ?_, ?_⟩
+    · rw [← removeSequence_iff, hs]
+      have := removeSequence_encode [encodeInteger r, encodeInteger s] [] (by simpa using h3)
+      simpa using this
+    · rw [← removeInteger_iff]; exact removeInteger_encode r _ h1
+    · rw [← removeInteger_iff]
+      have := removeInteger_encode s [] h2
+      simpa using this
+  · intro ⟨body, rest, h1, h2, h3⟩
+    rw [← removeSequence_iff] at h1
+    rw [← removeInteger_iff] at h2 h3
+    unfold sigdecodeDer
+    simp [bind, Except.bind, h1, h2, h3]
 
 end C12
